@@ -224,6 +224,9 @@ func Check(d Driver, o CheckOpts) int {
 		}
 		v := newByClass[class]
 		c, oc, steps := m.shrink(v.Case, v.Outcome)
+		if f, ok := d.(interface{ Finalize(Case) }); ok {
+			f.Finalize(c)
+		}
 		rp := Replay{Property: d.ID(), Seed: o.Seed, Run: v.Run, Class: oc.Class, Detail: oc.Detail, Culprits: oc.Culprits, Shrunk: steps, Case: json.RawMessage(MarshalCase(c))}
 		name := fmt.Sprintf("%s-%d-%d.json", d.ID(), o.Seed, v.Run)
 		if v.Run < 0 {
